@@ -322,9 +322,6 @@ func runDecodeBatch(batch int, cases []*caseData) {
 		return
 	}
 	ddir := filepath.Join(workDir, "decode")
-	must(os.MkdirAll(filepath.Join(ddir, "dump"), 0o755))
-	must(os.WriteFile(filepath.Join(ddir, "go.mod"), []byte("module verifdecode\n\ngo 1.18\n"), 0o644))
-	must(os.WriteFile(filepath.Join(ddir, "dump", "dump.go"), []byte(dumpSource), 0o644))
 	var mainSrc strings.Builder
 	mainSrc.WriteString("package main\n\nimport (\n\t\"verifdecode/dump\"\n")
 	for _, c := range todo {
@@ -430,8 +427,8 @@ func main() {
 		must(os.MkdirAll(workDir, 0o755))
 		buildGenerator()
 
-		n := len(corpus) + 330
-		batchSize := 200
+		n := len(corpus) + 2500
+		batchSize := 350
 		if h.Thorough() {
 			n = len(corpus) + 6000
 			batchSize = 400
@@ -473,7 +470,11 @@ func main() {
 			}()
 		}
 		wg.Wait()
-		// decode programs, a few builds in parallel
+		// decode programs, a few builds in parallel (module file and helper package written once)
+		ddir := filepath.Join(workDir, "decode")
+		must(os.MkdirAll(filepath.Join(ddir, "dump"), 0o755))
+		must(os.WriteFile(filepath.Join(ddir, "go.mod"), []byte("module verifdecode\n\ngo 1.18\n"), 0o644))
+		must(os.WriteFile(filepath.Join(ddir, "dump", "dump.go"), []byte(dumpSource), 0o644))
 		var batches [][]*caseData
 		var cur []*caseData
 		for _, i := range indices {
